@@ -90,8 +90,9 @@ claim("C12", "Problem.split contract: min(k, size) >= 1 parts, contiguous, non-e
 claim("C13", "Offset round trip (BC view = shared + offset, write-back subtracts it, get_solution, decrease_max/increase_min) and frame obligations of every function under contract; independence from constraint order, duplication, dummy constraints and "
       "sharing-vs-equality rewrites checked by the bounded engine suite.",
       "contract-based deductive verification + bounded engine suite", level="other")
-claim("C14", "P1+P2 deductively (C05); exactness (hull, inconsistency iff empty, idempotence) by the bounded propagator suites on exhaustively enumerated small scopes for all 18 listed propagators.",
-      "bounded run-time contract checks (exactness not yet deductive)", level="other")
+claim("C14", "P1+P2 deductively (C05); exact hull (every output bound is attained by a tuple of the input box that satisfies the relation: explicit witness tuples, unbounded arity) proved for max_leq, min_geq, affine_leq, affine_geq; "
+      "for all 18 listed propagators exactness (hull, inconsistency iff empty, idempotence; one interval round for affine_eq via hull of its own output) by the bounded propagator suites on exhaustively enumerated small scopes.",
+      "contract-based deductive verification (witness tuples) for 4 propagators + bounded run-time contract checks", level="other")
 claim("C18", "get_message contract under an explicit environment contract: every Queue.get has a timeout; an iteration that finds the queue empty while an unfinished worker is dead leaves by raising (never loops on); the reducers track completion flags exactly.",
       "contract-based deductive verification of a safety reformulation under an environment contract", level="other")
 claim("C08", "Shrink-only and frame clauses of BC and shaving (postconditions), exact set semantics of the propagation queue (add_propagators, pop_propagator), "
@@ -106,8 +107,8 @@ claim("C20", "Per-model lemmas discharged by z3 on the declarative content produ
       "With C01/C02 the lemmas give 'every solution is a valid object' and 'the solutions are exactly the valid objects' for those models and sizes; that a count equals the literature's number is not decidable by a contract and is only cross-checked at small sizes.",
       "per-model z3 lemmas over the real constructors' output + bounded run-time validation", level="other")
 claim("C05", "Generic propagator contract clauses P1 (contraction) and P2 (every supported tuple kept; inconsistency only when no tuple) as postconditions of each compute_domains_X, "
-      "discharged by z3 from VCs generated from the real source: unbounded-arity proofs (loop invariants) for the linear and min/max/and/dummy propagators, "
-      "arity-bounded proofs (unroll mode, values symbolic) for the counting, element and lexicographic propagators.",
+      "discharged by z3 from VCs generated from the real source: unbounded-arity proofs (loop invariants on a ghost tuple) for 15 propagators (and, linear x3, count_eq, dummy, element x3, exactly_eq, exactly_true, max/min x4), "
+      "arity-bounded proofs (unroll mode, values symbolic) for lexicographic_leq (<= 5 pairs), alldifferent (n <= 2; 3 in the thorough tier), gcc (one or two variables/values, capacities >= 1), no_sub_cycle (n = 3; 4 thorough); relation and scc by bounded suites only.",
       "contract-based deductive verification (own AST->VC generator, z3); unroll-mode counterexamples replayed natively", level="other")
 claim("C06", "Clause P3 (a non-failing call that leaves a point leaves a tuple of the relation) with P2 (iff on ground inputs) on each compute_domains_X under contract.",
       "contract-based deductive verification (own AST->VC generator, z3)", level="other")
